@@ -126,6 +126,11 @@ func faults() []fault {
 		addLexer("token-name-reserved-error", "ERROR = 'n'"),
 		addLexer("undefined-macro-or-token-ref", "REF = NOSUCH 'n'"),
 		addLexer("undefined-mode", "PM = 'n' @push_mode(NoSuchMode)"),
+		addLexer("push-mode-names-a-token", "PMTARGET = 'pq'\nPMX = 'n' @push_mode(PMTARGET)"),
+		addLexer("push-mode-names-a-macro", "@macro PMMAC = 'pq'\nPMY = 'n' PMMAC @push_mode(PMMAC)"),
+		addLexer("push-mode-names-a-parser-rule", "PMZ = 'n' @push_mode(s)"),
+		addLexer("emit-names-a-macro", "@macro EMMAC = 'pq'\n@frag 'n' EMMAC @emit(EMMAC)"),
+		addLexer("emit-names-a-mode", "EMPUSH = 'pq' @push_mode(EmMode)\n@mode EmMode {\n  EMPOP = 'qp' @pop_mode\n  @frag 'n' @emit(EmMode)\n}"),
 		addLexer("emit-undefined", "@frag 'n' @emit(NOSUCH)"),
 		addLexer("macro-cycle", "@macro MA = MB 'n'\n@macro MB = MA 'm'\nUSEMA = MA"),
 		addLexer("macro-self-cycle", "@macro MS = MS 'n'\nUSEMS = MS 'q'"),
